@@ -42,6 +42,7 @@ def configs(tier, seed):
     for _ in range(n):
         cfgs.append({"kind": "history", "seed": rng.getrandbits(32)})
     cfgs.append({"kind": "validation"})
+    cfgs.append({"kind": "shared"})
     return cfgs
 
 
@@ -86,6 +87,40 @@ def check_config(ctx, cfg):
                 bad.append((repr(val), ok, got))
         res("name_validation", not bad, str(bad))
         return
+    if cfg["kind"] == "shared":
+        # one window map added anonymously to two parents; the first parent gets more names in between: the window must
+        # still claim only its OWN names when the second parent asks
+        bad = []
+        names = [("a",), ("b",), ("a", "x"), ("c", 0)]
+        for first_is_empty in (True, False):
+            for cn in (["c"], ["c", "d"]):
+                for later in names:
+                    for p2name in names:
+                        child = MemoryMap(addr_width=2, data_width=8)
+                        for n_ in cn:
+                            child.add_resource(R(), name=n_, size=1)
+                        p1 = MemoryMap(addr_width=6, data_width=8)
+                        if not first_is_empty:
+                            p1.add_resource(R(), name="first", size=1)
+                        p1.add_window(child)
+                        if any(related(later, (c_,)) for c_ in cn) or (not first_is_empty and related(later, ("first",))):
+                            continue
+                        p1.add_resource(R(), name=later, size=1)
+                        p2 = MemoryMap(addr_width=6, data_width=8)
+                        p2.add_resource(R(), name=p2name, size=1)
+                        expect = not any(related(p2name, (c_,)) for c_ in cn)
+                        try:
+                            p2.add_window(child); got = True
+                        except ValueError:
+                            got = False
+                        if got != expect:
+                            bad.append((first_is_empty, cn, later, p2name, "accepted" if got else "refused"))
+                        own = sorted(tuple(i.path[-1]) for i in child.all_resources())
+                        if own != sorted((c_,) for c_ in cn):
+                            bad.append(("window's own resources changed", cn, own))
+        res("history_exact", not bad, "shared anonymous window: " + str(bad[:3]))
+        ctx.nontrivial = True
+        return
     if cfg["kind"] == "pairs":
         names = all_names(3)
         bad = []
@@ -122,6 +157,7 @@ def check_config(ctx, cfg):
         return m
     root = new_map()
     frozen = set()
+    used_children = []
     for step in range(rng.randint(3, 12)):
         target = rng.choice([m for m in maps if id(m) not in frozen] or [root])
         if id(target) in frozen:
@@ -144,6 +180,28 @@ def check_config(ctx, cfg):
                 vis[id(target)].append(name)
             elif snapshot(target) != before:
                 bad_atomic.append(("add_resource", name))
+        elif op < 0.72 and used_children:
+            # the SAME window map added (anonymously or not) to another parent: its own names must be all it claims
+            child = rng.choice(used_children)
+            if child.addr_width > target.addr_width or child is target:
+                continue
+            anonymous = rng.random() < 0.7
+            name = None if anonymous else rng.choice(pool)
+            queries = list(vis[id(child)]) if anonymous else [name]
+            expect = not any(related(qn, v) for qn in queries for v in vis[id(target)])
+            try:
+                target.add_window(child, name=name); got = True
+            except ValueError as e:
+                got = False
+                if "namespace" not in str(e):
+                    continue
+            log.append(("rewin", name, queries, got))
+            if got != expect:
+                bad_hist.append(("add_window(shared window)", name, queries, list(vis[id(target)]), "accepted" if got else "refused"))
+            if got:
+                vis[id(target)] += queries
+            elif snapshot(target) != before:
+                bad_atomic.append(("add_window", name))
         else:
             child = new_map()
             for _ in range(rng.randint(0, 3)):
@@ -167,6 +225,7 @@ def check_config(ctx, cfg):
                 bad_hist.append(("add_window", name, queries, list(vis[id(target)]), "accepted" if got else "refused"))
             if got:
                 frozen.add(id(child))
+                used_children.append(child)
                 vis[id(target)] += queries
             elif snapshot(target) != before:
                 bad_atomic.append(("add_window", name))
